@@ -176,6 +176,17 @@ def cases(tier, seed):
     for N, R, orig in [([2, 2], [1, 2, 1], [4]), ([2, 2, 2], [1, 2, 2, 1], [4, 2]), ([2, 2, 2], [1, 2, 3, 1], [2, 4]), ([2, 2, 2], [1, 2, 2, 1], [8]),
                        ([2, 2, 2, 2], [1, 2, 2, 2, 1], [4, 4]), ([2, 2, 2], [1, 2, 2, 1], [2, 2, 2]), ([3, 3, 2], [1, 2, 2, 1], [9, 2])]:
         cs.append({'scen': 'tt_qtt_to_tens', 's': {'N': N, 'R': R, 'orig': orig}, 'opts': Z})
+    # the same with a bond matrix that is not symmetric (cyclic permutation with distinct magnitudes): a transposed absorption is visible
+    cyc = [[[0, 0, 0], [0, 1, 1], [0, 2, 2]], [[0, 0, 1], [1, 0, 2], [2, 0, 0]], [[0, 0, 0], [1, 1, 0], [2, 2, 0]]]
+    for t in ([9], [3, 3]):
+        cs.append({'scen': 'tt_reshape', 's': {'N': [3, 1, 3], 'R': [1, 3, 3, 1], 'patterns': cyc, 'target': t}})
+        cs.append({'scen': 'tt_reshape', 's': {'N': [3, 1, 3], 'R': [1, 3, 3, 1], 'patterns': cyc, 'target': t, 'eps': 'default'}})
+    # sources with a singleton mode inside a group of modes that is merged (the singleton core is a bond matrix; equal and unequal ranks around it)
+    for N, R, tgts in [([2, 1, 2], [1, 2, 2, 1], ([4], [2, 2], [1, 4])), ([2, 1, 3], [1, 2, 2, 1], ([6], [2, 3])), ([2, 1, 2], [1, 2, 1, 1], ([4],))] + ([([2, 2, 1, 2], [1, 2, 2, 2, 1], ([2, 4], [4, 2]))] if th else []):
+        for t in tgts:
+            s = {'N': N, 'R': R, 'patterns': pats_for(N, R, rng, target=t), 'target': t}
+            cs.append({'scen': 'tt_reshape', 's': s})
+            cs.append({'scen': 'tt_reshape', 's': dict(s, eps='default')})
     return cs
 
 
